@@ -513,6 +513,29 @@ func (vc *VC) runOnce() {
 	for _, cl := range vc.Con.Of("requires") {
 		st.assume(vc, vc.specBool(env, cl))
 	}
+	// reveal name(args): the definition of an opaque predicate, for these arguments, in the entry state
+	for _, cl := range vc.Con.Of("reveal") {
+		txt := strings.TrimSpace(cl.Text)
+		i := strings.Index(txt, "(")
+		if i < 0 {
+			panic(specErr("%s:%d: reveal name(args)", cl.File, cl.Line))
+		}
+		name := txt[:i]
+		d, ok := vc.W.DB.Defs[name]
+		if !ok || d.Kind != "opaque" {
+			panic(specErr("%s:%d: %s is not an opaque predicate", cl.File, cl.Line, name))
+		}
+		argTexts := splitTop(txt[i+1:len(txt)-1], ",")
+		vc.specDepth++
+		op := env.evalBool(txt)
+		inner := env
+		for k, p := range d.Params {
+			inner = inner.bind(p, env.eval(argTexts[k]))
+		}
+		body := inner.evalBool(d.Text)
+		vc.specDepth--
+		st.assume(vc, Eq(op, body))
+	}
 	vc.entry = st.clone()
 	vc.lemmas(st, env)
 	vc.entry = st.clone()
@@ -529,29 +552,21 @@ func (vc *VC) runOnce() {
 	if len(rets) == 0 {
 		return
 	}
-	// merged exit state
-	var sts []*State
-	conds := make([]string, len(rets))
-	for i, r := range rets {
-		sts = append(sts, r.st)
-		conds[i] = r.st.pc
-	}
-	exit := vc.mergeStates("exit", sts)
-	nres := fn.Signature.Results().Len()
-	outs := make([]Val, nres)
-	for j := 0; j < nres; j++ {
-		col := make([]Val, len(rets))
-		for i, r := range rets {
-			col[i] = r.vals[j]
+	// every ensures clause is checked at every return statement, in the state of that path
+	multi := len(rets) > 1
+	for ri, r := range rets {
+		penv := vc.entryEnv(r.st)
+		penv.old = vc.entry
+		vc.bindResults(penv, vc.Con, r.vals, fnFullName(fn))
+		for _, cl := range vc.Con.Of("ensures") {
+			g := vc.specBool(penv, cl)
+			name := fmt.Sprintf("post#%d", cl.Index)
+			if multi {
+				name = fmt.Sprintf("post#%d/r%d", cl.Index, ri+1)
+			}
+			// candidates for existential goals: integer locals of this path
+			vc.addObl("post", name, r.st, g, fn.Pos(), cl.Tags, cl.Text)
 		}
-		outs[j] = mergeVals(vc, "res", conds, col)
-	}
-	penv := vc.entryEnv(exit)
-	penv.old = vc.entry
-	vc.bindResults(penv, vc.Con, outs, fnFullName(fn))
-	for _, cl := range vc.Con.Of("ensures") {
-		g := vc.specBool(penv, cl)
-		vc.addObl("post", fmt.Sprintf("post#%d", cl.Index), exit, g, fn.Pos(), cl.Tags, cl.Text)
 	}
 }
 
